@@ -47,6 +47,8 @@ def engine_rel(c, e, g):
         return True          # outside the modelled fragment: dropped (counted by the caller)
     if not isinstance(g, dict) or 'events' not in g:
         return False
+    if g.get('sources_ok') is False or g.get('alias') is True:
+        return False          # inputs modified, or an output row is an input row object ("fresh lists")
     tol = 1e-6 if 'approx' in c.get('tags', ()) else 0.0
     ev_e, ev_g = strip_header(e['events']), strip_header(g['events'])
     if tol:
